@@ -543,7 +543,17 @@ class LanguageGraph():
                     next_link = None)
                 new_dep_chain.left_chain = lh_dep_chain
                 new_dep_chain.right_chain = rh_dep_chain
-                return (lh_target_asset,
+
+                result_target_asset = lh_target_asset
+                if step_expression['type'] == 'union':
+                    # A union can also yield the right hand targets, its
+                    # type is the closest ancestor the two sides share.
+                    result_target_asset = next(
+                        asset for asset in \
+                            lh_target_asset.get_all_superassets()
+                        if rh_target_asset.is_subasset_of(asset))
+
+                return (result_target_asset,
                     new_dep_chain,
                     None)
 
